@@ -68,6 +68,7 @@ def check(ctx, rep):
     rep.rule("R02c", "no unguarded partial operation on request data in any protocol test or constructor", floor=5)
     rep.rule("R02d", "each shipped protocol list contains a catch-all per TLS parity, with nothing of that parity after it", floor=4)
     rep.rule("R02e", "protocol tests have no global/time/random/file-system effects", floor=6)
+    rep.rule("R02g", "WAP auto-detection agrees with the header table headerslurp() builds (evaluated on 7 header blocks)", floor=7)
     rep.rule("R02f", "sniff: recv(1, MSG_PEEK) only; TLS wrap iff the byte is 0x16; done in the worker, result passed on", floor=4)
     rep.assume("socketserver.StreamRequestHandler keeps the accepted socket in self.request / self.connection")
 
@@ -195,6 +196,8 @@ def check(ctx, rep):
         bad = sorted(e for e in summ if e.startswith(("GLOBAL_WRITE", "FS_", "EXEC", "EVAL")) or e in ("TIME", "RANDOM"))
         rep.add("R02e", f"{can.qualname} is pure", not bad, ctx.where(can), f"effects: {bad}" if bad else "",
                 key=f"R02e|{can.qualname}|{bad}")
+
+    wap_autodetect_obligations(ctx, rep, "R02g")
 
     # ------------------------------------------------------------------ R02f
     bs = ctx.cls("server.BaseServer")
@@ -327,3 +330,84 @@ def check(ctx, rep):
                 "; ".join(sorted(problems)), key=f"R02f|{m.qualname}|" + ";".join(sorted(problems)))
     if n_workers == 0:
         rep.fail("R02f", "server classes", detail="no forking/threading server class found")
+
+
+# ---------------------------------------------------------------------------- R02g
+def wap_autodetect_obligations(ctx, rep, rule="R02g"):
+    """WAP auto-detection reads the header table that HTTPProtocol.headerslurp() writes: the two have to agree on what a
+    stored value looks like.  headerslurp() is evaluated by the walker on a scripted header block (exact loops), then
+    WAPProtocol.canhandlerequest() on the table it produced: a request that announces WML in Accept (alone, first or
+    later in the list) together with a WAP device header must be taken by the WAP protocol; one without must not."""
+    from ..paths import Const, Walker
+
+    prog = ctx.prog
+    http = ctx.cls("protocols.http.HTTPProtocol")
+    wap = ctx.cls("protocols.wap.WAPProtocol")
+    hs = prog.resolve_method(http, "headerslurp") if http else None
+    can = prog.resolve_method(wap, "canhandlerequest") if wap else None
+    if hs is None or can is None:
+        rep.fail(rule, "headerslurp / WAPProtocol.canhandlerequest", detail="header reader or WAP test not found")
+        return
+    cases = [
+        (["Accept: text/vnd.wap.wml", "X-Wap-Profile: http://example.org/p.xml"], True, "WML alone in Accept + x-wap-profile"),
+        (["Accept: text/vnd.wap.wml, text/html", "x-up-devcap-max-pdu: 3000"], True, "WML first in Accept + x-up-devcap-max-pdu"),
+        (["Accept: text/html, text/vnd.wap.wml", "X-Wap-Profile: x"], True, "WML later in Accept + x-wap-profile"),
+        (["Accept:text/html,text/vnd.wap.wml", "X-Wap-Profile: x"], True, "WML later in Accept, no blanks"),
+        (["Accept: text/html", "X-Wap-Profile: x"], False, "no WML in Accept"),
+        (["Accept: text/vnd.wap.wml"], False, "WML in Accept but no device header"),
+        (["User-Agent: curl/8"], False, "no Accept header"),
+    ]
+    for headers, want, label in cases:
+        lines = [(h + "\r\n").encode() for h in headers] + [b"\r\n"]
+
+        def cv(call, target, st, _lines=lines):
+            if isinstance(call.func, ast.Attribute) and call.func.attr == "readline" and "rfile" in norm(call.func.value):
+                i = st.facts.get("__rl", Const(0)).value
+                st.facts["__rl"] = Const(i + 1)
+                return Const(_lines[i] if i < len(_lines) else b"")
+            return None
+
+        table = None
+        undetermined = False
+        w = Walker(prog, ctx.resolver, call_value=cv, unroll=len(lines) + 2, exact_loops=True,
+                   assumptions={"hasattr(self.requesthandler, 'pygopherd_http_slurped')": Const(False)})
+        tables = set()
+        for p in w.run(hs, http):
+            if p.kind == "raise":
+                undetermined = True
+                continue
+            v = p.state.facts.get("self.httpheaders")
+            if v is None or v.kind != "const" or not isinstance(v.value, dict):
+                undetermined = True
+            else:
+                tables.add(tuple(sorted(v.value.items())))
+        if undetermined or len(tables) != 1:
+            rep.add(rule, f"WAP auto-detection: {label}", False, ctx.where(hs),
+                    "the header table headerslurp() builds for this block is not determined by code the analysis understands", key=f"{rule}|{label}")
+            continue
+        table = dict(next(iter(tables)))
+
+        def cv2(call, target, st):
+            d = dotted(call.func) or ""
+            if (d.endswith("canhandlerequest") and "HTTPProtocol" in d) or (isinstance(call.func, ast.Attribute) and call.func.attr == "canhandlerequest"
+                                                                             and norm(call.func.value).startswith("super(")):
+                return Const(True)
+            if isinstance(call.func, ast.Attribute) and call.func.attr == "get" and len(call.args) == 2 \
+                    and isinstance(call.args[1], ast.Constant) and call.args[1].value == "waptop":
+                return Const("/wap")
+            if isinstance(call.func, ast.Attribute) and call.func.attr == "headerslurp":
+                return Const(None)
+            return None
+
+        facts = {"self.requestparts[1]": Const("/docs/a.txt"), "self.httpheaders": Const(table)}
+        w2 = Walker(prog, ctx.resolver, call_value=cv2, assumptions=facts, sticky=set(facts), unroll=6, exact_loops=True)
+        verdicts = set()
+        for p in w2.run(can, wap, facts=dict(facts)):
+            if p.kind == "raise":
+                verdicts.add("raise:" + str(p.value))
+            else:
+                verdicts.add(truth(p.value) if p.kind == "return" else False)
+        ok = verdicts == ({True} if want else {False})
+        rep.add(rule, f"WAP auto-detection: {label} -> {'WAP' if want else 'not WAP'}", ok, ctx.where(can),
+                "" if ok else f"with the header table {table!r} (as headerslurp() stores it) the WAP test gives {sorted(map(str, verdicts))}, "
+                f"expected {want}: the request is answered by {'plain HTTP' if want else 'the WAP protocol'} instead", key=f"{rule}|{label}")
